@@ -246,6 +246,47 @@ fn curve_checks(args: &Args, st: &mut Stats) {
                 }
             }
         }
+        // ---- axis-aligned and nearly axis-aligned segments through a point of the curve, both directions
+        {
+            let tw = 0.1 + 0.8 * r.unit_f64();
+            for variant in 0..4 {
+                let horizontal = variant % 2 == 0;
+                let flip = variant / 2 == 1;
+                let skew = if r.chance(1, 3) { 1e-3 * (r.unit_f64() - 0.5) } else { 0.0 };
+                for is_cubic in [false, true] {
+                    let (pw, tang) = if is_cubic { (c.sample(tw), c.derivative(tw)) } else { (q.sample(tw), q.derivative(tw)) };
+                    let (w1, w2) = (0.5 + 3.0 * r.unit_f64(), 0.5 + 3.0 * r.unit_f64());
+                    let (mut a0, mut b0) = if horizontal {
+                        (point(pw.x - w1, pw.y - skew * w1), point(pw.x + w2, pw.y + skew * w2))
+                    } else {
+                        (point(pw.x - skew * w1, pw.y - w1), point(pw.x + skew * w2, pw.y + w2))
+                    };
+                    if flip {
+                        std::mem::swap(&mut a0, &mut b0);
+                    }
+                    let seg = LineSegment { from: a0, to: b0 };
+                    let dir = (b0 - a0).normalize();
+                    let transversal = tang.length() > 1e-6 && (tang.normalize().cross(dir)).abs() > 0.3;
+                    st.inc("axis_aligned_segment_queries");
+                    let res = if is_cubic { catch(|| c.line_segment_intersections_t(&seg).to_vec()) } else { catch(|| q.line_segment_intersections_t(&seg).to_vec()) };
+                    let label = if is_cubic { format!("{:?} {:?} t={}", c, seg, tw) } else { format!("{:?} {:?} t={}", q, seg, tw) };
+                    match res {
+                        None => st.fail(jobj(&[("what", jstr("curve line_segment_intersections_t panicked")), ("input", jstr(&label))])),
+                        Some(v) => {
+                            for (t, u) in v.iter() {
+                                let pc = if is_cubic { c.sample(*t) } else { q.sample(*t) };
+                                if !(0.0..=1.0).contains(t) || !(-1e-9..=1.0 + 1e-9).contains(u) || (pc - seg.sample(*u)).length() > 1e-4 * (1.0 + w1 + w2) {
+                                    st.fail(jobj(&[("what", jstr("curve/segment (axis-aligned): parameters do not denote a common point")), ("input", jstr(&format!("{} -> t={} u={}", label, t, u)))]));
+                                }
+                            }
+                            if transversal && !v.iter().any(|(t, _)| (t - tw).abs() < 1e-5) {
+                                st.fail(jobj(&[("what", jstr("curve/segment (axis-aligned): transversal crossing not reported")), ("input", jstr(&format!("{} -> {:?}", label, v)))]));
+                            }
+                        }
+                    }
+                }
+            }
+        }
         // ---- cubic x quadratic: soundness of every reported pair / point
         {
             let q2 = QuadraticBezierSegment { from: g(r), ctrl: g(r), to: g(r) };
